@@ -1,0 +1,31 @@
+//go:build verif
+
+package authip
+
+import "sort"
+
+// VerifLoad parses the whitelist file at path the way the reload path does (add-only, tag verif).
+func VerifLoad(path string) error {
+	a := &AuthIp{name: path}
+	return a.parseAuthIp()
+}
+
+// VerifDump returns the enable flag and the sorted members of the map.
+func VerifDump() (bool, []string) {
+	var ips []string
+	for kv := range IpMap.Iter() {
+		if s, ok := kv.Key.(string); ok {
+			ips = append(ips, s)
+		}
+	}
+	sort.Strings(ips)
+	return IpMap.enable, ips
+}
+
+// VerifReset empties the map and disables the whitelist.
+func VerifReset() {
+	IpMap.enable = false
+	for kv := range IpMap.Iter() {
+		IpMap.Del(kv.Key)
+	}
+}
